@@ -5,9 +5,10 @@
   Conventions of the code (orbitals.py): `S = inv(rot_glb)`; `orb_rot_mat[j,i]` is the coefficient of orbital j in
   `φ_i(S·r)`, i.e.  φ_i(R⁻¹ r) = Σ_j φ_j(r) A_ji(R).  In terms of S the representation property A(R₁R₂) = A(R₁)A(R₂)
   reads  A(S₂·S₁) = A(S₁)·A(S₂).   `Orth3 S` means S Sᵀ = 1 (proper AND improper rotations).
-  `r3` is any element of the field with r3·r3 = 3 (√3).
+  `r3` is any element of the field with r3·r3 = 3 (√3); `FConst r15 r10 r6` : r15² = 15, r10² = 10, r6² = 6.
 -/
 import WB.Lemmas.C21D
+import WB.Lemmas.C21F3
 import WB.Lemmas.C21H
 import Mathlib.Analysis.Real.Sqrt
 
@@ -93,14 +94,48 @@ omit [CharZero K] in
 theorem d_parity (S : M3 K) (j i : Fin 5) : rotD r3 (fun a b => -S a b) j i = rotD r3 S j i :=
   rotD_neg r3 S j i
 
-/-- Bundle for the shells that are proved.  FULL statement of the property (not proved here): for EVERY shell
-    s, p, d, f the matrix is orthogonal for every S with S Sᵀ = 1.  Missing: the f shell (7×7, entries cubic in S,
-    constants √15, √10, √6) - `f_orthogonal` / `f_composition` are the stretch goal of the design; the f shell is
-    covered by the oracle on the real code only.  (The s shell is the constant function 1: its matrix is (1).) -/
-theorem shells_orthogonal_partial (hr : r3 * r3 = 3) (S : M3 K) (hS : Orth3 S) :
+/-! ### f shell (`r15, r10, r6` = √15, √10, √6; proofs go through the integer-coefficient cubics g_i = n_i f_i, for which
+    the matrix has rational entries: `rotF j i = n_j · rotG j i / n_i`, WB/Lemmas/C21F*.lean) -/
+
+variable {r15 r10 r6 : K}
+
+/-- f: the matrix built by the code is the matrix of the substitution for every orthogonal `S` -/
+theorem f_expansion (h : FConst r15 r10 r6) (S : M3 K) (hS : Orth3 S) (i : Fin 7) (v : V3 K) :
+    fFun r15 r10 r6 i (mulVec3 S v) = sum7 (fun j => fFun r15 r10 r6 j v * rotF r15 r10 r6 S j i) :=
+  rotF_expand h S hS i v
+
+/-- f: composition law `A(S₂S₁) = A(S₁)A(S₂)` for orthogonal matrices (from `f_expansion`, functoriality of the
+    substitution and the linear independence of the seven cubics) -/
+theorem f_composition (h : FConst r15 r10 r6) (S1 S2 : M3 K) (h1 : Orth3 S1) (h2 : Orth3 S2) (l i : Fin 7) :
+    rotF r15 r10 r6 (mulM3 S2 S1) l i = sum7 (fun j => rotF r15 r10 r6 S1 l j * rotF r15 r10 r6 S2 j i) :=
+  rotF_comp h S1 S2 h1 h2 l i
+
+/-- f: identity for the identity rotation -/
+theorem f_identity (h : FConst r15 r10 r6) (j i : Fin 7) :
+    rotF r15 r10 r6 (one3 : M3 K) j i = if j = i then 1 else 0 :=
+  rotF_one h j i
+
+/-- f: orthogonal for every orthogonal `S`, proper or improper: `AᵀA = 1` (and `AAᵀ = 1`).  Proved from the
+    addition theorem Σ_j f_j(u) f_j(v) = P₃-kernel(u·v, |u|², |v|²), which is invariant under `S`. -/
+theorem f_orthogonal (h : FConst r15 r10 r6) (S : M3 K) (hS : Orth3 S) (i i' : Fin 7) :
+    sum7 (fun j => rotF r15 r10 r6 S j i * rotF r15 r10 r6 S j i') = (if i = i' then 1 else 0) ∧
+    sum7 (fun j => rotF r15 r10 r6 S i j * rotF r15 r10 r6 S i' j) = (if i = i' then 1 else 0) :=
+  ⟨rotF_cols h S hS i i', rotF_rows h S hS i i'⟩
+
+omit [CharZero K] in
+/-- f is odd under inversion: `A(−S) = −A(S)` -/
+theorem f_parity (S : M3 K) (j i : Fin 7) :
+    rotF r15 r10 r6 (fun a b => -S a b) j i = -rotF r15 r10 r6 S j i :=
+  rotF_neg S j i
+
+/-- Every shell s, p, d, f: the matrix is orthogonal for every `S` with `S Sᵀ = 1`.
+    (The s shell is the constant function 1, its matrix is the 1×1 matrix (1) for every `S`.) -/
+theorem shells_orthogonal (hr : r3 * r3 = 3) (h : FConst r15 r10 r6) (S : M3 K) (hS : Orth3 S) :
+    ((1 : K) * 1 = 1) ∧
     (∀ i i' : Fin 3, sum3 (fun j => rotP S j i * rotP S j i') = if i = i' then 1 else 0) ∧
-    (∀ i i' : Fin 5, sum5 (fun j => rotD r3 S j i * rotD r3 S j i') = if i = i' then 1 else 0) :=
-  ⟨p_orthogonal S hS, d_orthogonal hr S hS⟩
+    (∀ i i' : Fin 5, sum5 (fun j => rotD r3 S j i * rotD r3 S j i') = if i = i' then 1 else 0) ∧
+    (∀ i i' : Fin 7, sum7 (fun j => rotF r15 r10 r6 S j i * rotF r15 r10 r6 S j i') = if i = i' then 1 else 0) :=
+  ⟨one_mul 1, p_orthogonal S hS, d_orthogonal hr S hS, fun i i' => (f_orthogonal h S hS i i').1⟩
 
 end shells
 
@@ -108,6 +143,8 @@ end shells
 example : Orth3 (fun a b => ([[3/5, 4/5, 0], [4/5, -3/5, 0], [0, 0, -1]] : List (List Rat)).getD a.val [] |>.getD b.val 0) := by
   unfold Orth3; decide +kernel
 example : ∃ r3 : ℝ, r3 * r3 = 3 := ⟨Real.sqrt 3, Real.mul_self_sqrt (by norm_num)⟩
+example : FConst (Real.sqrt 15) (Real.sqrt 10) (Real.sqrt 6) :=
+  ⟨Real.mul_self_sqrt (by norm_num), Real.mul_self_sqrt (by norm_num), Real.mul_self_sqrt (by norm_num)⟩
 
 /-! ## T3  hybrids  `M · A · Mᵀ` -/
 
